@@ -58,7 +58,9 @@ CONSTANTS Tiny,       \* TRUE: reduced alphabet, free exploration (every path x 
           MaxSteps,   \* depth of the free exploration
           EmitOut,    \* write every step to IOEnv.OUT
           Seed, Stride,   \* subsample of the shapes: those with (index * 7919 + Seed) % Stride = 0
-          Bound       \* Level I byte loop: copies bytes 0 .. size-1-Bound  (0 = chibicc; 1 must be rejected)
+          Bound,      \* Level I byte loop: copies bytes 0 .. size-1-Bound  (0 = chibicc; 1 must be rejected)
+          UnitCheck   \* TRUE: also demand that every bit-field storage unit chibicc addresses lies inside the object
+                      \*       (Extent below; refuted for packed aggregates - recorded finding C04-F6)
 
 L == INSTANCE Layout WITH MaxLen <- 2, Small <- FALSE, Pinned <- FALSE, Emit <- FALSE,
        union <- FALSE, attr <- [packed |-> FALSE, aln |-> 0], ms <- <<>>, curA <- 0, curI <- 0
@@ -104,6 +106,7 @@ Bfs == UNION { { BfM(BfBase[i][1], BfBase[i][2], BfBase[i][3], w, TRUE)
 Scalars == { TChar, TShort, TInt, TLong, TPtr, TUChar, IntT("ushort", 2, FALSE), IntT("uint", 4, FALSE),
              Fp("float", 4, 4), Fp("double", 8, 8), Fp("ldouble", 16, 10) }
 Nested == { Arr("char3", TChar, 3), Arr("int2", TInt, 2), Arr("char5", TChar, 5), Arr("short7", TShort, 7),
+            Arr("float3", Fp("float", 4, 4), 3),      \* struct {float[3];}: 12 bytes, both eightbytes of class SSE (returned in xmm0:xmm1)
             Arr("int2x2", Arr("int2", TInt, 2), 2),
             SCI,                                                          \* struct {char; int;}
             Agg("s_c3", <<Arr("char3", TChar, 3)>>, FALSE, FALSE, 0),     \* struct {char[3];}   size 3
@@ -168,6 +171,19 @@ Lv(p) == IF p.ty.k = "bf"
               [obj |-> "obj", off |-> (p.pos \div u) * p.ty.sz, unit |-> p.ty.sz, bitoff |-> p.pos % u,
                width |-> p.ty.w, signed |-> p.ty.sg]
          ELSE [obj |-> "obj", off |-> p.pos \div 8, size |-> p.ty.sz]
+
+(* Extent.  Level A: an access to (a part of) an object of n bytes touches bytes of [0, n) of that object and nothing
+   else - observable when the object ends (or starts) at a page boundary and the neighbouring page is inaccessible
+   (storage classes pgend / pgstart of the replay).  Level I, the byte range each access of chibicc touches:
+     scalar member / element     load(ty) / store(ty): the `size` bytes at its offset
+     bit-field                   load(mem->ty) and the read-modify-write of ND_ASSIGN: the whole storage unit of the
+                                 DECLARED type at mem->offset = align_down(bit position / 8, unit)   (struct_decl)
+     aggregate member / object   store(): byte loop over [off, off + size)
+   AccessI gives [lo, hi); ExtentOK says it lies inside the object.  For a packed aggregate the object may end before
+   the unit does (struct __attribute__((packed)) { char c; int x:3; } has size 2, the unit of x is bytes 0..3). *)
+AccessI(p) == IF p.ty.k = "bf" THEN LET u == p.ty.sz * 8 IN [lo |-> (p.pos \div u) * p.ty.sz, hi |-> (p.pos \div u) * p.ty.sz + p.ty.sz]
+              ELSE [lo |-> p.pos \div 8, hi |-> p.pos \div 8 + p.ty.sz]
+Inside(p, size) == AccessI(p).lo >= 0 /\ AccessI(p).hi <= size
 
 (* value mask of a type: TRUE = the byte holds (part of) a value, FALSE = padding *)
 RECURSIVE VMask(_)
@@ -289,6 +305,7 @@ PutBytes(m, off, bytes) == MkSeq(Len(m), LAMBDA j : IF j - 1 >= off /\ j - 1 < o
 Case(step) == [sid |-> sid, shape |-> IF n = 0 THEN T ELSE <<>>, step |-> n + 1, a |-> step, mem |-> mem',
                paths |-> IF n > 0 THEN <<>> ELSE
                          [i \in DOMAIN ps |-> [hops |-> ps[i].hops, lv |-> Lv(ps[i]), k |-> ps[i].ty.k, id |-> ps[i].ty.id,
+                                                over |-> ~Inside(ps[i], T.sz),
                                                 sg |-> ps[i].ty.sg, t |-> ps[i].ty.t, vm |-> IF ps[i].ty.k = "agg" THEN VMask(ps[i].ty) ELSE <<>>]],
                vm |-> IF n = 0 THEN vm ELSE <<>>]
 Out(step) == EmitOut => CSVWrite("%1$s", <<ToJson(Case(step))>>, IOEnv.OUT)
@@ -471,6 +488,8 @@ PathsDisjoint ==
   /\ \A i, j \in DOMAIN ps :
        (i < j /\ ps[i].ty.k # "agg" /\ ps[j].ty.k # "agg" /\ NoUnionOn(T, ps[i].hops, 1) /\ NoUnionOn(T, ps[j].hops, 1))
          => (ps[i].pos + Width(ps[i]) <= ps[j].pos \/ ps[j].pos + Width(ps[j]) <= ps[i].pos)
+(* every access stays inside the object (scalars and aggregate members always; bit-field units when UnitCheck) *)
+ExtentOK == \A i \in DOMAIN ps : (ps[i].ty.k # "bf" \/ UnitCheck) => Inside(ps[i], T.sz)
 (* Level I byte loop = Level A copy on every value byte, and touches nothing else *)
 CopyRefines == n = 0 =>
   LET a == CopyA(mem).obj
